@@ -472,14 +472,61 @@ func runC09(env *core.Env) {
 		{Name: "prune||set-done", Store: cf.SA, Procs: []core.Req{core.R("", "--json", "prune", "--yes"), core.R("", "--json", "set", cf.T2).In(`{"state":"done"}`)}},
 		{Name: "prune||prune", Store: cf.SA, Procs: []core.Req{core.R("", "--json", "prune", "--yes"), core.R("", "--json", "prune", "--yes")}},
 	}, invC14)
+	// a store with far more prunable items than any batching threshold: 180 epics with one finished task each, 3 open
+	// tasks in epics of their own and one open task next to a finished one. One `prune --yes` takes exactly the finished
+	// tasks and the epics they leave empty - all of them - and the dry run says the same.
+	bigCov := map[string]interface{}{}
+	{
+		w := env.W0()
+		l := newSynLog()
+		want := map[string]bool{}
+		for i := 0; i < 180; i++ {
+			e, t := core.IDFor(int64(40000+2*i)), core.IDFor(int64(40001+2*i))
+			l.Create(SynItem{ID: e, Epic: true, Title: fmt.Sprintf("finished epic %d", i)})
+			l.Create(SynItem{ID: t, Title: fmt.Sprintf("finished task %d", i), In: e})
+			l.State(t, []string{"done", "canceled"}[i%2])
+			want[e], want[t] = true, true
+		}
+		for i := 0; i < 4; i++ {
+			e, t := core.IDFor(int64(41000+2*i)), core.IDFor(int64(41001+2*i))
+			l.Create(SynItem{ID: e, Epic: true, Title: fmt.Sprintf("open epic %d", i)})
+			l.Create(SynItem{ID: t, Title: fmt.Sprintf("open task %d", i), In: e})
+			if i == 3 {
+				t2 := core.IDFor(41100)
+				l.Create(SynItem{ID: t2, Title: "finished sibling", In: e})
+				l.State(t2, "done")
+				want[t2] = true
+			}
+		}
+		st := core.Store{".ergo/plans.jsonl": l.Bytes(), ".ergo/lock": nil}
+		st.Materialize(w.Proj)
+		dry, okD := pruneIDs(w.Run(core.R(w.Proj, "--json", "prune")))
+		yes, okY := pruneIDs(w.Run(core.R(w.Proj, "--json", "prune", "--yes")))
+		got := map[string]bool{}
+		for _, id := range yes {
+			got[id] = true
+		}
+		obs := core.ObserveW(w, w.Proj)
+		left := 0
+		for id := range want {
+			if _, listed := obs.Item(id); listed {
+				left++
+			}
+		}
+		bigCov = map[string]interface{}{"prunable": len(want), "dry_run_reports": len(dry), "pruned": len(yes), "still_listed": left}
+		if !okD || !okY || strings.Join(dry, ",") != strings.Join(yes, ",") || !sameSet(got, want) || left > 0 || obs.Fail != "" {
+			report(env, "C09 kind=large-prune-incomplete-or-wrong", fmt.Sprintf("%d prunable items (180 one-task epics, 1 finished sibling): dry run reports %d, --yes reports %d, %d of them are still listed afterwards (reads: %q)", len(want), len(dry), len(yes), left, obs.Fail),
+				mkTrace(st, "361 prunable items", []core.Req{core.R("", "--json", "prune", "--yes")}, Assert{Kind: "obs_contains", Step: 1, Text: "finished "}))
+		}
+	}
 	// prune under I/O errors and short writes: what it reports as pruned must be pruned (exit 0 => effect there),
 	// a failing prune must have removed nothing
 	pruneCmds := []crashCmd{{"prune", core.R("", "--json", "prune", "--yes")}}
 	faultCov := map[string]interface{}{"io_errors": faultPhase(env, "C09", cf.SA, pruneCmds), "short_writes": shortWritePhase(env, "C09", cf.SA, pruneCmds)}
 	env.Finish("model_checking", map[string]interface{}{
-		"fault_phases": faultCov,
-		"concurrent":   concCov,
-		"states":       evalsA + permChecked, "transitions": followUps + reissue + 2*evalsA, "traces_validated_against_impl": validated, "samples": samples.list,
+		"fault_phases": faultCov, "large_prune": bigCov,
+		"concurrent": concCov,
+		"states":     evalsA + permChecked, "transitions": followUps + reissue + 2*evalsA, "traces_validated_against_impl": validated, "samples": samples.list,
 		"exhaustive": env.TimeLeft(), "stores_pruned": evalsA, "stores_where_something_was_pruned": prunedSomething, "follow_up_commands_on_pruned_ids": followUps,
 		"id_issue_scenarios": reissue, "event_order_permutations": permChecked, "permutations_violating": resurrected, "prune_outcome_classes": classes.snapshot(),
 		"unconfirmed_candidates": unconfirmed.Load(),
